@@ -45,7 +45,7 @@ TARGETS = [
     ("utils/random.py", ["sattolo_shuffle", "random_weighted_sample", "random_sample", "flip_coin", "uniform", "randint"]),
     ("utils/selections.py", ["proportional_selection", "rank_selection", "tournament_selection"]),
     ("utils/crossovers.py", ["empty_crossover", "binomialGA", "one_point_crossover", "two_point_crossover",
-                             "uniform_crossover", "uniform_proportional_crossover", "uniform_rank_crossover", "binomial"]),
+                             "uniform_crossover", "uniform_proportional_crossover", "uniform_rank_crossover", "uniform_tournament_crossover", "binomial"]),
     ("utils/mutations.py", ["flip_mutation", "best_1", "rand_1", "rand_to_best1", "current_to_best_1", "best_2", "rand_2",
                             "current_to_rand_1", "current_to_pbest_1_archive", "current_to_pbest_1_archive_p_min"]),
     ("optimizers/_differentialevolution.py", ["bounds_control"]),
@@ -57,6 +57,7 @@ TARGETS = [
 MANUAL_SIGS = {
     "empty_crossover": "int8[:](int8[:, :], float64[:], float64[:])",
     "minmax_scale": "float64[:](float64[:])",
+    "uniform_tournament_crossover": "int8[:](int8[:, :], float64[:], float64[:])",
 }
 # extra fuel for while loops that consume no draws (a wrong value cannot make a theorem true: out of fuel is None and
 # the equivalence theorems show the result is Some)
@@ -449,9 +450,11 @@ class Translator:
             raise Untranslatable(e, "slice form")
         if isinstance(sl, ast.Tuple):
             if len(sl.elts) == 2 and t == L(L(Z)):
-                i, _ = self.expr(fn, sc, sl.elts[0], pre, Z)
-                j, _ = self.expr(fn, sc, sl.elts[1], pre, Z)
-                return f"(get2 {c} {i} {j})", Z
+                (i, ti), (j, tj) = self._expr(fn, sc, sl.elts[0], pre), self._expr(fn, sc, sl.elts[1], pre)
+                if ti == Z and tj == Z:
+                    return f"(get2 {c} {i} {j})", Z
+                if ti == L(Z) and tj == L(Z):
+                    return f"(pick2 {c} {i} {j})", L(Z)       # m[rows, cols]: one element per (row, col) pair
             raise Untranslatable(e, "tuple index")
         i, ti = self._expr(fn, sc, sl, pre)
         if ti == Z:
@@ -469,6 +472,8 @@ class Translator:
                 return f"(gatherZ {c} {i})", L(Z)
             if t == L(Q):
                 return f"(gatherQz {c} {i})", L(Q)
+        if ti == L(L(Z)) and t == L(Q):
+            return f"(gather2Q {c} {i})", L(L(Q))
         raise Untranslatable(e, f"index of type {ti} into {t}")
 
     def call(self, fn, sc, e, pre):
@@ -505,6 +510,11 @@ class Translator:
             if not is_list(t):
                 raise Untranslatable(e, "copy of a non-array")
             return c, t
+        if isinstance(f, ast.Attribute) and f.attr == "reshape" and [ast.unparse(a) for a in e.args] == ["-1", "2"]:
+            c, t = self._expr(fn, sc, f.value, pre)
+            if t == L(Z):
+                return f"(pairs2 {c})", L(L(Z))
+            raise Untranslatable(e, "reshape of " + str(t))
         if isinstance(f, ast.Attribute) and f.attr in ("max", "min") and not e.args and not e.keywords:
             c, t = self._expr(fn, sc, f.value, pre)
             if t == L(Q):
@@ -558,6 +568,11 @@ class Translator:
         if name == "np.cumsum" and len(e.args) == 1:
             c, _ = self.expr(fn, sc, e.args[0], pre, L(Q))
             return f"(cumsum {c})", L(Q)
+        if name == "np.argmax" and len(e.args) == 1 and [(k.arg, ast.unparse(k.value)) for k in e.keywords] == [("axis", "1")]:
+            c, t = self._expr(fn, sc, e.args[0], pre)
+            if t == L(L(Q)):
+                return f"(argmax_rows {c})", L(Z)
+            raise Untranslatable(e, "argmax(axis=1) of " + str(t))
         if name == "np.argmax" and len(e.args) == 1 and not e.keywords:
             c, _ = self.expr(fn, sc, e.args[0], pre, L(Q))
             return f"(argmaxZ {c})", Z
@@ -749,9 +764,7 @@ class Translator:
         return f"let {cname(var)} := {code} in\n{body}"
 
     def bind_name(self, sc, var, t, node, fresh):
-        if var in sc.env and sc.env[var] != t and var not in sc.poisoned:
-            raise Untranslatable(node, f"variable {var} changes type {sc.env[var]} -> {t}")
-        sc.env[var] = t
+        sc.env[var] = t      # a re-binding may change the type (Gallina shadowing); loop states and if-joins check types themselves
         sc.poisoned.discard(var)
         if fresh:
             sc.fresh.add(var)
@@ -1172,7 +1185,7 @@ def ensure(names):
 C11_FUNCS = ["minmax_scale", "binary_search_interval", "check_for_value", "argsort_k", "find_pbest_id", "sattolo_shuffle",
              "random_weighted_sample", "random_sample", "flip_coin", "randint", "proportional_selection",
              "rank_selection", "tournament_selection"]
-C06_FUNCS = C11_FUNCS + ["empty_crossover", "binomialGA", "one_point_crossover", "two_point_crossover", "uniform_crossover",
+C06_FUNCS = C11_FUNCS + ["uniform_tournament_crossover", "empty_crossover", "binomialGA", "one_point_crossover", "two_point_crossover", "uniform_crossover",
                          "uniform_proportional_crossover", "uniform_rank_crossover", "flip_mutation"]
 C07_FUNCS = C11_FUNCS + ["binomial", "best_1", "rand_1", "rand_to_best1", "current_to_best_1", "best_2", "rand_2",
                          "bounds_control", "bounds_control_mean", "uniform", "current_to_pbest_1_archive_p_min"]
